@@ -158,7 +158,7 @@ theorem C01_parse_eq (orc : Oracle) (m : PM) (f : Frame) (rest : List Frame) (r 
       f'.cfg = (f.cfg.setLine (f.cfg.line + nl)).setOpt r (o.setFlags { o.flags with reset := true, modified := true }) := by
   unfold pstep
   simp only [hrun, hfr]
-  simp [hst, hopt, hget]
+  simp [hst, hopt, hget, step_s1]
 
 /-- **the parser's `+=`**: only for lists; clears RESET so that the values which follow are appended
 to whatever the option holds, defaults included. -/
@@ -170,7 +170,7 @@ theorem C01_parse_pluseq (orc : Oracle) (m : PM) (f : Frame) (rest : List Frame)
       f'.cfg = (f.cfg.setLine (f.cfg.line + nl)).setOpt r (o.setFlags { o.flags with reset := false, modified := true }) := by
   unfold pstep
   simp only [hrun, hfr]
-  simp [hst, hopt, hget, hlist]
+  simp [hst, hopt, hget, hlist, step_s1]
 
 /-- `+=` on a non-list option is rejected with a diagnostic. -/
 theorem C01_parse_pluseq_nonlist (orc : Oracle) (m : PM) (f : Frame) (rest : List Frame) (r : OptRef) (o : Opt) (nl : Nat)
@@ -179,6 +179,6 @@ theorem C01_parse_pluseq_nonlist (orc : Oracle) (m : PM) (f : Frame) (rest : Lis
     (pstep orc m .pluseq nl).status = .rejected ∧ (pstep orc m .pluseq nl).diags.length = m.diags.length + 1 := by
   unfold pstep
   simp only [hrun, hfr]
-  simp [hst, hopt, hget, hlist, PM.rejectWith, PM.reject, PM.addDiags, collapse]
+  simp [hst, hopt, hget, hlist, step_s1, PM.rejectWith, PM.reject, PM.addDiags, collapse]
 
 end Confuse
